@@ -94,6 +94,24 @@ pub fn apply_at_rest(ctx: &Rc<RunCtx>, damages: &[AtRest]) {
                     }
                 }
             }
+            AtRest::IndexBodyZero { blob, from_permille, len } => {
+                if let Some(b) = pick_blob(ctx, *blob, true) {
+                    let mut c = live_content(ctx, &index_name(b)).unwrap();
+                    if c.len() > INDEX_HEADER_LEN + 1 {
+                        let body = c.len() - INDEX_HEADER_LEN;
+                        let start = INDEX_HEADER_LEN + (body as u64 * (*from_permille as u64).min(999) / 1000) as usize;
+                        let end = (start + (*len as usize).max(1)).min(c.len());
+                        let changed = c[start..end].iter().any(|x| *x != 0);
+                        for x in c[start..end].iter_mut() {
+                            *x = 0;
+                        }
+                        if changed {
+                            world.set_file_content(&index_name(b), Some(c));
+                            world.inner.borrow_mut().fired.bump("index_body_zeroed");
+                        }
+                    }
+                }
+            }
             AtRest::IndexStale { blob } => {
                 // an older index of the same blob (describing a shorter blob)
                 let cands: Vec<usize> = ctx.saved_indexes.borrow().keys().copied().filter(|b| ctx.attached().contains(b)).collect();
@@ -225,9 +243,36 @@ pub fn build_power_loss_image(ctx: &Rc<RunCtx>, cut: &PowerCut) {
         let mut img = durable.clone();
         let mut left = keep;
         let mut tail_region: Option<(usize, usize)> = None;
-        for (off, data) in pending.iter() {
+        // a lost write in the middle: everything else issued to this file survives
+        let lost = match cut.lost_write {
+            Some(k) if pending.len() >= 2 => Some(k as usize % (pending.len() - 1)),
+            _ => None,
+        };
+        if cut.lost_block.is_some() {
+            left = total_pending;
+        }
+        if lost.is_some() {
+            left = total_pending;
+            world.inner.borrow_mut().fired.bump("power_loss_lost_write_in_the_middle");
+        }
+        for (pi, (off, data)) in pending.iter().enumerate() {
             if left == 0 {
                 break;
+            }
+            if Some(pi) == lost {
+                // missing entirely (torn == 0: the range comes into existence only through a later
+                // write beyond it), or the size update survived without the data (zeros / garbage)
+                if cut.torn > 0 {
+                    let need = *off as usize + data.len();
+                    if img.len() < need {
+                        img.resize(need, 0);
+                    }
+                    for (i, b) in img[*off as usize..need].iter_mut().enumerate() {
+                        *b = if cut.torn == 1 { 0 } else { (i as u8).wrapping_mul(37).wrapping_add(11) };
+                    }
+                    world.inner.borrow_mut().fired.bump("torn_tail");
+                }
+                continue;
             }
             let n = (data.len() as u64).min(left) as usize;
             let need = *off as usize + n;
@@ -237,6 +282,20 @@ pub fn build_power_loss_image(ctx: &Rc<RunCtx>, cut: &PowerCut) {
             img[*off as usize..need].copy_from_slice(&data[..n]);
             left -= n as u64;
             tail_region = Some((*off as usize, need));
+        }
+        if let Some(k) = cut.lost_block {
+            // blocks touched by the un-synced writes; the chosen one falls back to its durable content
+            let mut blocks: Vec<usize> = pending.iter().flat_map(|(off, d)| ((*off as usize) / 4096..=((*off as usize + d.len().max(1) - 1) / 4096))).collect();
+            blocks.sort();
+            blocks.dedup();
+            if blocks.len() >= 2 {
+                let b = blocks[k as usize % blocks.len()];
+                let (s0, e0) = (b * 4096, ((b + 1) * 4096).min(img.len()));
+                for i in s0..e0 {
+                    img[i] = durable.get(i).copied().unwrap_or(0);
+                }
+                world.inner.borrow_mut().fired.bump("power_loss_lost_block");
+            }
         }
         if Some(&name) == victim.as_ref() && cut.torn > 0 {
             if let Some((s, e)) = tail_region {
